@@ -103,7 +103,15 @@ Configs == {C1, C2, C3, C4, C5, C6, C7, C8}
 
 ClassesQuick == { <<"FE14", "EnglishNA">>, <<"FE10", "Spanish">>, <<"FE13", "Japanese">>, <<"FE9", "Dutch">> }
 ClassesAll == { <<g, l>> : g \in {"FE9", "FE10", "FE13", "FE14", "FE15"}, l \in Languages }
-Classes == IF Tier = "quick" THEN ClassesQuick ELSE ClassesAll
+\* The generator's quick tier walks through more pairs than the model checker's: every pair on which two games'
+\* tables differ has to be replayed against the real code, so that a filesystem built with a neighbouring game's
+\* localizer (or compression format) is seen:  FE9-English (none) / FE10-English (e_);  FE13-Japanese (none) /
+\* FE15-Japanese (@J);  FE13-Spanish (S) / FE14-English (@E) / FE15 (@NOE_..);  Dutch unsupported (FE9) / supported (FE15).
+ClassesGenQuick == { <<"FE9", "EnglishNA">>, <<"FE9", "Dutch">>, <<"FE10", "EnglishNA">>, <<"FE10", "Spanish">>,
+                     <<"FE13", "Japanese">>, <<"FE13", "Spanish">>, <<"FE14", "EnglishNA">>,
+                     <<"FE15", "Japanese">>, <<"FE15", "Dutch">> }
+GenMode == "FS_GEN" \in DOMAIN IOEnv
+Classes == IF Tier = "quick" THEN (IF GenMode /\ MaxDepth = 0 THEN ClassesGenQuick ELSE ClassesQuick) ELSE ClassesAll
 
 \* ------------------------------------------------------------------ call alphabet
 Pth(c) == [c |-> c, t |-> FALSE]
@@ -282,5 +290,20 @@ LowerLayersStep == [][/\ Len(L') = Len(L)
 GenEvents == ModelEvents \cup TypedEvents
 WithRaw(ev) == [op |-> ev.op, p |-> ev.p, raw |-> RenderRel(ev.p), loc |-> ev.loc, data |-> ev.data, glob |-> ev.glob]
 ASSUME IF "FS_GEN" \in DOMAIN IOEnv THEN PrintT("E " \o ToJson(SetToSeq({ WithRaw(ev) : ev \in GenEvents }))) ELSE TRUE
+\* C14: the explicit-path twin of a localized call is computed HERE - Localize applied with the localizer that
+\* Cfg(game) prescribes and the filesystem's language (canonical spelling) - never by the code under test.
+\* One "W" line per game x language pair: for every requested path of the alphabet its twin path, if it has one.
+TwinOf(g, l, P) ==
+  LET mk == Marker(Cfg(g).loc, l)
+      pp == AsPath(P)
+  IN IF HasFinal(pp) /\ mk.kind \in {"dir", "none", "prefix"}
+     THEN LET cp == Canonical(mk, pp).p IN
+          [raw |-> RenderRel(P), some |-> TRUE, p |-> [c |-> cp.c, t |-> cp.t], traw |-> Render(cp)]
+     ELSE [raw |-> RenderRel(P), some |-> FALSE, p |-> [c |-> <<>>, t |-> FALSE], traw |-> <<>>]
+ASSUME IF GenMode
+       THEN \A cl \in Classes :
+              PrintT("W " \o ToJson([game |-> cl[1], lang |-> cl[2],
+                                     twins |-> SetToSeq({ TwinOf(cl[1], cl[2], ev.p) : ev \in GenEvents })]))
+       ELSE TRUE
 Emit == PrintT("S " \o ToJson([game |-> game, lang |-> lang, depth |-> depth, layers |-> L]))
 =============================================================================
